@@ -259,14 +259,17 @@ class UCtx(object):
 class SIdent(_ORIG_IDENT):
     """the library's IdentManager with yield points; `current` becomes a property"""
 
+    # the value lives in the instance __dict__ under the library's own key 'current' (so that code which works on
+    # `self.__dict__`, e.g. a __getstate__, sees and touches the real thing); the class-level property only adds the
+    # yield point on a foreign read
     def _get(self):
         c = CTL
-        if c is not None and self.__dict__.get('_cur', 0) != threading.get_ident() and _me() is not None:
+        if c is not None and self.__dict__.get('current', 0) != threading.get_ident() and _me() is not None:
             c.point()          # silent yield: a foreign thread reads the owner
-        return self.__dict__.get('_cur', 0)
+        return self.__dict__.get('current', 0)
 
     def _set(self, v):
-        self.__dict__['_cur'] = v
+        self.__dict__['current'] = v
 
     current = property(_get, _set)
 
